@@ -129,9 +129,9 @@ CLAIMS = {
          "inner iteration over affine normal forms",
          "Static decision that dykstra performs at most max_iter sweeps, that its result is exactly the last projector's output, and of the two premises of the sqrt(p*tol) feasibility "
          "bound (the stopping quantity sums the squared change of every correction vector of the sweep; each sub-step moves x by exactly the change of its correction vector; the loop "
-         "tests the caller's tol / max_iter, which are never re-assigned), that every projector call sits in a loop over all sets so that the routine stops only after the last set of a sweep, that pbox is an exact two-sided clamp of its arguments, and that the value handed to a projector is not reused after the call (a projector may modify its argument). "
+         "tests the caller's tol / max_iter, which are never re-assigned), that every projector call sits in a loop over all sets so that the routine stops only after the last set of a sweep, that pbox is an exact two-sided clamp of its arguments and pball never divides by a quantity that can vanish (it is applied at its own centre whenever a step is zero), and that the value handed to a projector is not reused after the call (a projector may modify its argument). "
          "Distances and 1e-3 optimality are numerical and NOT decided.",
-         "Trusted: CPython ast; integer-coefficient affine arithmetic of dfv/affine.py.",
+         "Trusted: CPython ast; integer-coefficient affine arithmetic of dfv/affine.py; the radius handed to pball is positive.",
          "DESIGN.md 4/C15"),
  "C16": ("typestate data-flow (flag may-be-true / cleared / written-while-true) over every Model method with the read-set of interpolation_matrix computed from the call graph, "
          "ownership inventory, affine normal forms for shift_base, re-basing check of live relative locals at shift_base call sites",
